@@ -177,25 +177,25 @@ type qInterp struct {
 	cells  map[string]qitv
 	stores []qStore
 	// part B: inside a parallel loop nest reads see the snapshot taken at its entry and writes go to pending
-	snapshot map[string]qitv
-	pending  map[string]qitv
-	written  map[string]qitv // cells written in the current layer, by the text of the index expression
-	perIndex bool // part A: distinguish the constant indexes of a window
-	exact    bool // part B, small N: every loop and every index concrete, one abstract cell per coefficient
-	slen     map[string]int64 // exact mode: length of the tracked slices
-	depth    int
-	steps    int
+	snapshot  map[string]qitv
+	pending   map[string]qitv
+	written   map[string]qitv  // cells written in the current layer, by the text of the index expression
+	perIndex  bool             // part A: distinguish the constant indexes of a window
+	exact     bool             // part B, small N: every loop and every index concrete, one abstract cell per coefficient
+	slen      map[string]int64 // exact mode: length of the tracked slices
+	depth     int
+	steps     int
 	undecided int
 }
 
 type qFrame struct {
-	u   map[types.Object]qitv
-	n   map[types.Object]ival
-	bl  map[types.Object]int // 1 true, 2 false
-	sym map[types.Object]string
-	base map[types.Object]ival // offset of a view into the slice it views
-	leq  map[string]bool       // relational facts "A<=B" (expression texts) established by the enclosing conditions
-	ret []qitv
+	u        map[types.Object]qitv
+	n        map[types.Object]ival
+	bl       map[types.Object]int // 1 true, 2 false
+	sym      map[types.Object]string
+	base     map[types.Object]ival // offset of a view into the slice it views
+	leq      map[string]bool       // relational facts "A<=B" (expression texts) established by the enclosing conditions
+	ret      []qitv
 	returned bool
 }
 
